@@ -56,7 +56,7 @@ func sentinelSites(c *core.Ctx, fns []*ssa.Function, extraUpper func(fn *ssa.Fun
 			}
 			for _, arg := range cl.Call.Args {
 				d := strings.Join(pv.Desc(arg), "|")
-				if !isUpperDesc(d) && !(extraUpper != nil && extraUpper(fn, arg)) {
+				if !isUpperDesc(d) && !(extraUpper != nil && extraUpper(fn, arg)) && !paramReceivesUpper(c, fn, arg) {
 					continue
 				}
 				site := sentinelSite{Fn: fn, Call: cl, Operand: d}
@@ -299,4 +299,30 @@ func shorten(s string, n int) string {
 		return s
 	}
 	return s[:n] + "…"
+}
+
+// paramReceivesUpper: v is a parameter of an unexported function of the module and some call site
+// passes an upper bound (by provenance) in that position — the comparison was moved into a helper.
+func paramReceivesUpper(c *core.Ctx, fn *ssa.Function, v ssa.Value) bool {
+	par, ok := core.Strip(v).(*ssa.Parameter)
+	if !ok || fn.Object() == nil || fn.Object().Exported() {
+		return false
+	}
+	k := -1
+	for i, p := range fn.Params {
+		if p == par {
+			k = i
+		}
+	}
+	if k < 0 {
+		return false
+	}
+	pv := c.P.Prov()
+	for _, cs := range c.P.CallersOf(fn) {
+		args := cs.Instr.Common().Args
+		if k < len(args) && isUpperDesc(strings.Join(pv.Desc(args[k]), "|")) {
+			return true
+		}
+	}
+	return false
 }
